@@ -123,6 +123,76 @@ def stop_cases(thorough):
                             yield cfg, setup + [("stop", sid), ("adv", 0.1), ("tx",)] + after + attack
 
 
+def reset_cases(thorough):
+    """RESET_STREAM x late / duplicated STREAM data x retransmitted RESET_STREAM, final size above the offset
+    received so far, connection limit at the boundary (shape of the `resetKeepsHighest` counterexample): the
+    bytes of a reset stream count ONCE against MAX_DATA, an in-limit peer is never accused"""
+    for cl in (True, False):
+        pb, pun, mb, mu = ids_of(cl)
+        for (d, z) in [(10, 6), (6, 6), (7, 4)] + ([(1000, 600), (11, 6), (3, 2)] if thorough else []):
+            cfg = {"seed": 8, "e_is_client": cl, "e_opts": {"max_data": d, "max_stream_data": max(d, z)}, "e_streams": (3, 3),
+                   "p_opts": {"max_data": 10 ** 7, "max_stream_data": 10 ** 7}}
+            k = z // 2
+            for name, sid, setup in (("peer-bidi", pb(0), []), ("peer-uni", pun(0), []),
+                                     ("own-bidi", mb(0), [("send", mb(0), 1, False), ("adv", 0.1), ("tx",)])):
+                other = pb(1)
+                rest = d - z            # what the limit leaves to another stream
+                histories = [
+                    [("preset", sid, z), ("pstream", sid, 0, z, False)],                        # data sent before the reset arrives after it
+                    [("preset", sid, z), ("preset", sid, z)],                                    # retransmitted RESET_STREAM
+                    [("pstream", sid, 0, k, False), ("preset", sid, z), ("pstream", sid, k, z - k, False)],
+                    [("pstream", sid, 0, k, False), ("preset", sid, z), ("preset", sid, z), ("pstream", sid, 0, k, False)],
+                    [("pmulti", [("preset", sid, z), ("pstream", sid, 0, z, False), ("preset", sid, z)])],
+                    [("preset", sid, z), ("pstream", sid, z - 1, 1, True)],                      # late FIN at the final size
+                    # the rest of the connection limit is used by another stream, then the late data / RESET arrives
+                    [("preset", sid, z), ("pstream", other, 0, rest, False), ("pstream", sid, 0, z, False), ("preset", sid, z)],
+                    # ... and one byte more than the limit is still refused
+                    [("preset", sid, z), ("pstream", sid, 0, z, False), ("pstream", other, 0, rest + 1, False)],
+                    # after the endpoint raised MAX_DATA on the wire
+                    [("preset", sid, z), ("adv", 0.1), ("tx",), ("pstream", sid, 0, z, False), ("preset", sid, z),
+                     ("pstream", other, 0, rest, False)],
+                ]
+                for i, h in enumerate(histories):
+                    if thorough or name != "own-bidi" or i < 4:
+                        yield cfg, setup + h
+
+
+def builder_stop_cases(thorough):
+    """a limit is due to be raised (used * 2 > value) while the packet builder refuses the frame (congestion
+    window full: `start_frame` raises QuicPacketBuilderStop) - shape of the `raiseBeforeWrite` counterexample; then
+    the key-holding peer probes the ADVERTISED limit: advertised is accepted, advertised + 1 is refused, and once
+    the frame could be written the new value is enforced"""
+    for cl in (True, False):
+        pb, pun, mb, mu = ids_of(cl)
+        # MAX_DATA
+        for d in ([100] if not thorough else [100, 10, 1000]):
+            cfg = {"seed": 9, "e_is_client": cl, "e_opts": {"max_data": d, "max_stream_data": 10 * d}, "e_streams": (128, 128),
+                   "p_opts": {"max_data": 10 ** 7, "max_stream_data": 10 ** 7}}
+            due = [("fill",), ("pstream", pb(0), 0, d * 6 // 10, False), ("adv", 0.1), ("tx",)]
+            yield cfg, due + [("pstream", pb(0), d * 6 // 10, d - d * 6 // 10, False)]                  # up to advertised: accepted
+            yield cfg, due + [("pstream", pb(0), d * 6 // 10, d - d * 6 // 10 + 1, False)]              # advertised + 1
+            yield cfg, due + [("pstream", pun(0), 0, d - d * 6 // 10 + 1, False)]                       # ... spread over two streams
+            yield cfg, due + [("preset", pun(0), d - d * 6 // 10 + 1)]                                  # ... by a final size
+            yield cfg, due + [("tx",), ("adv", 0.4), ("tx",), ("pstream", pb(0), d * 6 // 10, d, False)]   # 2 * d - 40% + ...: far beyond
+            # the window opens again (acks): the frame is written, the doubled value is in force
+            yield cfg, due + [("ackall",), ("adv", 0.1), ("tx",), ("pstream", pb(0), d * 6 // 10, d, False),
+                              ("pstream", pb(0), d * 16 // 10, d, False)]
+        # MAX_STREAMS (bidi and uni)
+        for (b, opened) in [(2, 1), (128, 64)] + ([(4, 2), (1, 0)] if thorough else []):
+            cfg = {"seed": 10, "e_is_client": cl, "e_opts": {"max_data": 10 ** 6, "max_stream_data": 1000}, "e_streams": (b, b),
+                   "p_opts": {"max_data": 10 ** 7, "max_stream_data": 10 ** 7}}
+            for mk in (pb, pun):
+                due = [("fill",), ("pstream", mk(opened), 0, 1, False), ("adv", 0.1), ("tx",)]
+                yield cfg, due + [("pstream", mk(b - 1), 0, 1, False)]             # last advertised stream: accepted
+                yield cfg, due + [("pstream", mk(b), 0, 1, False)]                 # advertised + 1
+                if thorough or b == 2:
+                    yield cfg, due + [("psdb", mk(b), 0)]
+                    yield cfg, due + [("preset", mk(b), 0)]
+                    yield cfg, due + [("pstream", mk(2 * b - 1), 0, 1, False)]
+                yield cfg, due + [("ackall",), ("adv", 0.1), ("tx",), ("pstream", mk(2 * b - 1), 0, 1, False),
+                                  ("pstream", mk(2 * b), 0, 1, False)]
+
+
 def exhaustive_cases(configs, k, stride):
     for (d, m, b, u) in configs:
         cfg = {"seed": 2, "e_is_client": True, "e_opts": {"max_data": d, "max_stream_data": m}, "e_streams": (b, u),
@@ -134,7 +204,7 @@ def exhaustive_cases(configs, k, stride):
                 yield cfg, list(seq)
 
 
-def random_script(r, e_is_client, d, m, n_ops):
+def random_script(r, e_is_client, d, m, n_ops, p_reset=0.1):
     peer = [1, 5, 9, 3, 7] if e_is_client else [0, 4, 8, 2, 6]
     mine = [0, 4, 2] if e_is_client else [1, 5, 3]
     sent = {}     # sid -> highest end sent so far (so that data is mostly contiguous / in window)
@@ -164,7 +234,7 @@ def random_script(r, e_is_client, d, m, n_ops):
             ln = r.choice([0, 1, 1, 2, 3, 5, 17])
             if off + ln > TOP and r.random() < 0.8:
                 off = TOP - ln
-            if r.random() < 0.1:
+            if r.random() < p_reset:
                 script.append(("preset", sid, off + ln))
             else:
                 script.append(("pstream", sid, off, ln, r.random() < 0.12))
@@ -306,6 +376,38 @@ def main(tier):
     thorough = tier == "thorough"
     r = rng.make("c07")
     cases, impl_outs, qcases, qouts = [], [], [], []
+
+    def search():
+        """failing-input search (a correspondence / obligation broke, no witness yet): the directed generators in
+        their thorough form, every pair of boundary frames unstrided, PRNG histories biased to a full
+        congestion window and to RESET_STREAM with late data - until the wire oracle gives a concrete witness"""
+        import time
+        t0 = time.time()
+        sink = ([], [], [], [])
+
+        def tryit(name, cfg, script):
+            res = fc.run_puppet(cfg, script)
+            evaluate(ctx, name, cfg, script, res, *sink)
+            return bool(ctx.witnesses) or time.time() - t0 > 240
+
+        for gen in (reset_cases, builder_stop_cases, stop_cases, id_frame_cases):
+            for cfg, script in gen(True):
+                if tryit("search", cfg, script):
+                    return
+        for cfg, script in exhaustive_cases([(2, 2, 1, 1), (4, 3, 2, 1), (3, 5, 1, 0)], 2, 1):
+            if tryit("search", cfg, script):
+                return
+        rs = rng.make("c07-search")
+        for i in range(3000):
+            d, m = rs.choice([1, 2, 3, 6, 20, 100]), rs.choice([2, 3, 5, 16, 100, 1000])
+            cl = rs.random() < 0.5
+            cfg = {"seed": 9000 + i, "e_is_client": cl, "e_opts": {"max_data": d, "max_stream_data": m},
+                   "e_streams": (rs.choice([1, 2, 3, 128]), rs.choice([1, 2, 128])),
+                   "p_opts": {"max_data": 10 ** 7, "max_stream_data": 10 ** 7}}
+            script = ([("fill",)] if rs.random() < 0.6 else []) + random_script(rs, cl, d, m, rs.choice([10, 40]), p_reset=0.35)
+            if tryit("search", cfg, script):
+                return
+    ctx.search = search
     # 1. exhaustive small scope: all pairs of boundary frames
     configs = [(2, 2, 1, 1), (4, 3, 2, 1)] if not thorough else \
         [(0, 0, 0, 0), (1, 1, 1, 1), (2, 2, 1, 1), (4, 3, 2, 1), (3, 5, 1, 0), (7, 3, 2, 2)]
@@ -327,7 +429,9 @@ def main(tier):
                     evaluate(ctx, "single", cfg, [fr], res, cases, impl_outs, qcases, qouts)
     fc.diff_cases(ctx, "flow-recv-single", cases, impl_outs)
     # 1b. every frame type naming a stream id x stream-count limits; stop_stream() then frames beyond the limits
-    for name, gen in (("stream-ids", id_frame_cases), ("stop", stop_cases)):
+    # 1c. RESET_STREAM x late / duplicated data; limit raises while the packet builder refuses the frame
+    for name, gen in (("stream-ids", id_frame_cases), ("stop", stop_cases), ("reset-late-data", reset_cases),
+                      ("builder-stop", builder_stop_cases)):
         cases, impl_outs = [], []
         for cfg, script in gen(thorough):
             res = fc.run_puppet(cfg, script)
@@ -370,7 +474,12 @@ def main(tier):
         "after MAX_STREAMS was raised on the wire, and on wrong-initiator / wrong-direction ids; stop_stream() on a stream whose "
         "sending half is finished (peer uni, bidi with acknowledged FIN), STOP_SENDING written then acked / lost / unreported, "
         "followed by frames beyond the stream limit, the connection limit and final sizes beyond the limits (the oracle itself "
-        "decides whether the receive half completed; only then may frames be ignored); (2) PRNG histories of such frames interleaved with the endpoint raising its limits "
+        "decides whether the receive half completed; only then may frames be ignored); (1c) RESET_STREAM with a final size above "
+        "the offset received x late / duplicated STREAM data x retransmitted RESET_STREAM (also in one packet, after MAX_DATA was "
+        "raised, with the rest of the connection limit used by another stream: the bytes count once, limit + 1 is still refused); "
+        "a MAX_DATA / MAX_STREAMS raise that is due while the congestion window is full (the builder refuses the frame), then the "
+        "peer probes advertised and advertised + 1 (data, final size, new stream, STREAM_DATA_BLOCKED), and the doubled value once "
+        "the frame was written; (2) PRNG histories of such frames interleaved with the endpoint raising its limits "
         "(MAX_* observed on the wire), loss of the packets carrying MAX_*, a full congestion window (MAX_* cannot be "
         "written), application writes/stops; (3) CRYPTO frames around MAX_PENDING_CRYPTO, PATH_CHALLENGE bursts, "
         "NEW_CONNECTION_ID / retire-prior-to sequences. Non-trivial = a history with a frame accepted within limits and a "
